@@ -400,6 +400,11 @@ pub fn run(ctx: &Ctx, rep: &mut Report) {
             if !thorough && c.entry == Entry::Derive && c.gen != "m2" {
                 continue;
             }
+            // refused by design through a rustc error in the hidden Eq assertion (C17's mechanism and subject)
+            if crate::cmpx::refused_by_eq_assertion(&c.ts, &c.derived) {
+                rep.add("borrowed_programs_left_to_C17(non-Eq value under == with Eq derived)", 1);
+                continue;
+            }
             let item = c.ts.item().print();
             let list: Vec<String> = crate::refmodel::names(&c.derived);
             borrowed_programs.insert(cases.len(), crate::cmpx::program(&c.ts, &c.derived, c.entry));
